@@ -31,6 +31,7 @@ REGIONS = {
     "subD": r"class\s+subarray\s*:\s*public\s+const_subarray<T,\s*D,\s*ElementPtr,\s*Layout>",
     "viewD": r"struct\s+const_subarray\s*:\s*array_types<T,\s*D,\s*ElementPtr,\s*Layout>",
     "view1": r"struct\s+const_subarray<T,\s*1,\s*ElementPtr,\s*Layout>",
+    "aref": r"class\s+array_ref\s*:\s*public\s+subarray<T,\s*D,\s*ElementPtr,\s*Layout>",
 }
 
 
@@ -89,6 +90,11 @@ class C:
                     return self.method(self.ev_obj(args[0], m), base.replace("adl_", ""), [], m)
                 if base == "static_cast" and len(args) == 1:
                     return self.ev(args[0], m)
+                if base == "adl_equal" and len(args) == 3 and self.kind == "aref":
+                    a, b, c = [self.ev(x, m) for x in args]
+                    if a[0] == "ptr" and b[0] == "ptrplus" and b[1] == a[1] and c[0] == "ptr":
+                        return ("bool", f"(equalFlat {m} ({b[2]}).toNat {a[1]} {c[1]})")
+                    raise TranslateError(f"{self.fname}: adl_equal over {a[0]}, {b[0]}, {c[0]}")
                 if base in ("adl_equal",) and len(args) == 3:
                     its = [self.ev(a, m) for a in args]
                     return self.with_iters(its, lambda v: f"ElemIt.equalN {m} ({v[1]}.diff {v[0]}).toNat {v[0]} {v[2]}", "obool")
@@ -144,6 +150,10 @@ class C:
                 return ("bool", f"(!{v[1]})")
             if v[0] == "obool":
                 return ("obool", f"(({v[1]}).map fun r => !r)")
+        if k == "+":
+            a, b = self.ev(e[1], m), self.ev(e[2], m)
+            if a[0] == "ptr" and b[0] == "int":
+                return ("ptrplus", a[1], b[1])
         if k in ("&&", "||"):
             a, b = self.ev(e[1], m), self.ev(e[2], m)
             if a[0] == "bool" and b[0] == "bool":
@@ -167,6 +177,13 @@ class C:
                     return ("exts", f"{o}.exts")
                 if name == "extension" and not args:
                     return ("ext", f"{o}.ext")
+            if self.kind == "aref":
+                if name == "num_elements" and not args:
+                    return ("int", f"{o}.numElements")
+                if name == "data_elements" and not args:
+                    return ("ptr", f"{o}.base")
+                if name == "extensions" and not args:
+                    return ("exts", f"{o}.exts")
             if self.kind == "erange":
                 if name == "size" and not args:
                     return ("int", f"{o}.size")
@@ -215,6 +232,14 @@ class C:
                 return self.with_iters([self.ev(x, m) for x in a], lambda v: f"ElemIt.copyN ({v[1]}.diff {v[0]}).toNat {v[0]} {v[2]} {m}", "omem")[1]
             if base == "adl_swap_ranges" and len(a) == 3:
                 return self.with_iters([self.ev(x, m) for x in a], lambda v: f"ElemIt.swapN ({v[1]}.diff {v[0]}).toNat {v[0]} {v[2]} {m}", "omem")[1]
+            if base == "copy_elements_" and len(a) == 1 and self.kind == "aref":
+                v = self.ev(a[0], m)
+                if v[0] == "ptr":
+                    return f"AR_copy_elements {self.this} {paren(v[1])} {m}"
+            if base == "adl_copy_n" and len(a) == 3 and self.kind == "aref":
+                src, cnt, dst = self.ev(a[0], m), self.ev(a[1], m), self.ev(a[2], m)
+                if src[0] == "ptr" and cnt[0] == "int" and dst[0] == "ptr":
+                    return f"some (copyFlat ({cnt[1]}).toNat {paren(src[1])} {paren(dst[1])} {m})"
             if base == "adl_copy_n" and len(a) == 3:
                 src, cnt, dst = self.ev(a[0], m), self.ev(a[1], m), self.ev(a[2], m)
                 if src[0] == "valsbegin" and cnt == ("int", f"({src[1]}.length : Int)") and dst[0] == "it":
@@ -249,6 +274,8 @@ class C:
             a = self.compile([th] + rest, m, depth, boolret)
             b = self.compile(([el] if el is not None else []) + rest, m, depth, boolret)
             return f"(if {cond} then {a} else {b})"
+        if k == "return" and not boolret and st[1] is not None and self.strip(st[1])[0] == "call" and self.kind == "aref":
+            return f"({self.effect(st[1], m)})"
         if k == "return":
             if boolret:
                 v = self.ev(st[1], m)
@@ -307,6 +334,12 @@ TARGETS = [
     ("ER_swap", "erange", "swap", r"^elements_range_t<OP, OL>&&? other$", None, "erange", False),
     ("ER_eq", "erange", "operator==", r"^elements_range_t<OP, OL> const& other$", None, "erange", True),
     ("ER_ne", "erange", "operator!=", r"^elements_range_t<OP, OL> const& other$", None, "erange", True),
+    ("AR_copy_elements", "aref", "copy_elements_", r"^It first$", None, "aref", False),
+    ("AR_assign", "aref", "operator=", r"^array_ref const& other$", r"^&$", "aref", False),
+    ("AR_assign_other_rv", "aref", "operator=", r"^array_ref<TT, D, As\.\.\.> const& other$", r"^&&$", "aref", False),
+    ("AR_assign_T", "aref", "operator=", r"^array_ref<TT, DD, As\.\.\.> const& other$", r"^&$", "aref", False),
+    ("AR_eq", "aref", "operator==", r"^array_ref const& self, array_ref<TT, D, As\.\.\.> const& other$", None, "aref", True),
+    ("AR_ne", "aref", "operator!=", r"^array_ref const& self, array_ref<TT, D, As\.\.\.> const& other$", None, "aref", True),
     ("SV_assign_same", "subD", "operator=", r"^const_subarray<T, D, ElementPtr, Layout> const& other$", r"^&$", "view", False),
     ("SV_assign_other", "subD", "operator=", r"^const_subarray<TT, D, As\.\.\.> const& other$", r"^&$", "view", False),
     ("SV_assign_other_rv", "subD", "operator=", r"^const_subarray<TT, D, As\.\.\.> const& other$", r"^&&$", "view", False),
@@ -340,13 +373,15 @@ def translate(lean_name, region, cpp, prx, qrx, kind, boolret):
     for fn in cands:
         this, other = ("dst", "src") if not boolret else ("self", "other")
         extra = {}
+        if kind == "aref" and cpp == "copy_elements_":
+            extra["first"] = ("ptr", "first")
         if "values" in fn["params"]:
             extra["values"] = ("vals", "vals")
         c = C(kind, this, other, f"{REL}:{fn['line']}:{cpp}", extra)
         ast = GL.P(GL.lex("{" + fn["body"] + "}", fn["line"])).block()
         body = c.compile(ast[1], "m", 0, boolret)
         ty = "ElemRange" if kind == "erange" else "View"
-        binders = f"({this} : {ty})" + ("" if "values" in extra else f" ({other} : {ty})") + (" (vals : List α)" if "values" in extra else "")
+        binders = f"({this} : {ty})" + ("" if ("values" in extra or "first" in extra) else f" ({other} : {ty})") + (" (vals : List α)" if "values" in extra else "") + (" (first : Int)" if "first" in extra else "")
         binders += " (m : Mem α)" + (" (sameObject : Bool)" if c.same_object else "") + (" (ltE : α → α → Bool)" if c.uses_lt else "")
         ret = "Option Bool" if boolret else "Option (Mem α)"
         inst = " [DecidableEq α]" if boolret else ""
